@@ -27,6 +27,15 @@ Theorem walk_complete_once :
     /\ NoDup (map st_path (walk t)).
 Proof. exact walk_complete_once_proof. Qed.
 
+(* Never the root, and every reported path is a clean relative path that is not ".", ".." or below
+   "..": exactly the lexical conditions the stream validator (C12 ok_path) demands. *)
+Theorem walk_paths_clean :
+  forall t, wf_tree t ->
+  forall p, In p (map st_path (walk t)) ->
+    p <> [] /\ p <> s_dot /\ p <> s_dotdot /\ has_prefix s_dotdotsep p = false /\
+    clean p = p /\ is_abs p = false.
+Proof. exact walk_paths_clean_proof. Qed.
+
 (* Each directory before its contents: the entry of a node below a non-root directory cs is
    preceded by the entry of cs.  (Corollary of the two theorems above.) *)
 Theorem walk_parent_first :
@@ -151,6 +160,7 @@ Proof. exact sorted_b_spec. Qed.
 
 Print Assumptions walk_sorted.
 Print Assumptions walk_complete_once.
+Print Assumptions walk_paths_clean.
 Print Assumptions walk_parent_first.
 Print Assumptions walk_stat.
 Print Assumptions walk_hardlinks.
